@@ -162,6 +162,15 @@ impl<'a> ScopedVariables<'a> {
     }
 }
 
+/// The error for a match that has no node for the stanza's full-match capture (tree-sitter keeps
+/// a limited number of captures per node, and a quantified root pattern can match nothing).
+fn missing_full_match(stanza: &Stanza) -> ExecutionError {
+    ExecutionError::UndefinedCapture(format!(
+        "for the full match of the stanza at {}",
+        stanza.range.start
+    ))
+}
+
 impl Stanza {
     fn execute<'a, 'g, 'l, 's, 'tree>(
         &self,
@@ -183,7 +192,7 @@ impl Stanza {
                 let node = mat
                     .nodes_for_capture_index(self.full_match_stanza_capture_index as u32)
                     .next()
-                    .expect("missing full capture");
+                    .ok_or_else(|| missing_full_match(self))?;
                 StatementContext::new(&statement, &self, &node)
             };
             let mut exec = ExecutionContext {
@@ -292,7 +301,9 @@ impl CreateGraphNode {
                 .mat
                 .nodes_for_capture_index(exec.full_match_stanza_capture_index as u32)
                 .next()
-                .expect("missing capture for full match");
+                .ok_or_else(|| {
+                    ExecutionError::UndefinedCapture(format!("for the full match in {}", self))
+                })?;
             let syn_node = exec.graph.add_syntax_node(match_node);
             exec.graph[graph_node]
                 .attributes
@@ -660,6 +671,19 @@ impl SetComprehension {
 
 impl Capture {
     fn evaluate(&self, exec: &mut ExecutionContext) -> Result<Value, ExecutionError> {
+        // tree-sitter can report a match without a node for a capture it declares as required
+        if self.quantifier == tree_sitter::CaptureQuantifier::One
+            && exec
+                .mat
+                .nodes_for_capture_index(self.stanza_capture_index as u32)
+                .next()
+                .is_none()
+        {
+            return Err(ExecutionError::UndefinedCapture(format!(
+                "{} at {}",
+                self, self.location
+            )));
+        }
         Ok(Value::from_nodes(
             exec.graph,
             exec.mat
